@@ -58,8 +58,8 @@ CLAIMS = {
   note="Assumes dependency specs (BinarySearchFunc), sorted/indexed snapshot invariant at entry (proved preserved under C01). Undecided: completeness of the concatenation across ranges (proved per range in seqRange/uidRange only), which messages the closure built for a SEARCH message-set key selects (closure bodies are outside the contracts), duplicates in the result for overlapping ranges. Known deviation pinned by the existing tests: `n:*` with n above the highest UID selects nothing (RFC 3501 says it includes the last message) — see DESIGN.md.",
   ref="DESIGN.md §4 C16"),
  "C17": dict(
-  text="Deductive proof that the four limit checks are exact for all inputs (nil iff the resulting count / UID is within the configured maximum, including the deliberate wrap-around test on int64 addition), and return the documented error. Also proved: AddMessagesToMailbox / MoveMessagesFromMailbox read count and next UID of the DESTINATION mailbox in the same transaction and write nothing unless both checks passed; State.Create checks the mailbox limit for every mailbox it is about to create (name and missing parents; a genuine defect found here was repaired).",
-  note="Assumes non-negative counts at the call sites (stated as preconditions). Assumes the abstract transaction model (ghost write counter, uninterpreted count/next-UID functions). Undecided: AppendRegular (check on a read-only client outside the inserting transaction), Rename, connector-side creation, all-or-nothing via wrapTx, concurrency.",
+  text="Deductive proof that the four limit checks are exact for all inputs (nil iff the resulting count / UID is within the configured maximum, including the deliberate wrap-around test on int64 addition), and return the documented error. Also proved: AddMessagesToMailbox / MoveMessagesFromMailbox read count and next UID of the DESTINATION mailbox in the same transaction and write nothing unless both checks passed; State.Create and State.Rename check the mailbox limit for every mailbox they are about to create (name, missing parents, the mailbox that receives INBOX's messages when INBOX is renamed; two genuine defects found here were repaired).",
+  note="Assumes non-negative counts at the call sites (stated as preconditions). Assumes the abstract transaction model (ghost write counter, uninterpreted count/next-UID functions). Undecided: AppendRegular (check on a read-only client outside the inserting transaction), connector-side creation, all-or-nothing via wrapTx, concurrency.",
   ref="DESIGN.md §4 C17"),
  "C07": dict(
   text="Deductive proof of the transaction wrapper every database write goes through (sqlite3 Client.wrapTx): for every operation and every failing step, a nil result means exactly one successful commit and no rollback, an error result means nothing was committed, every transaction begun is ended exactly once and at most one is begun. This is the 'before or after, never half' clause for the database part of every operation; Also proved: the three state actions that create a message row (actionCreateMessage, actionCreateRecoveredMessage, actionImportRecoveredMessage) hand the database only an id whose literal was written to the store earlier in the same call (abstract store model: a successful Set adds the id and keeps the others), so an error or crash between the two leaves at most an unreferenced file, never a listed message without bytes; getLiteral, when it has to download a literal again, puts into the cache exactly the slice it returns (at most one store write). At start-up (newUser) the purge of messages marked for deletion runs before the sweep that removes cache files without a row.",
